@@ -310,3 +310,108 @@ class FStep(ScriptedMixin, Step):
         if world:
             up['world'] = world
         return up
+
+
+# ---------------------------------------------------------------------------
+# wiring parties (C06, C07, C08, C15)
+# ---------------------------------------------------------------------------
+
+def _set_in(d, path, value):
+    for k in path[:-1]:
+        d = d.setdefault(k, {})
+    d[path[-1]] = value
+
+
+def decode_value(v):
+    """JSON case value -> python value ({'__q__': [m, unit]} quantities,
+    {'__nd__': [...]} arrays)."""
+    if isinstance(v, dict):
+        if '__q__' in v:
+            from vivarium.library.units import units
+            m, u = v['__q__']
+            return m * units.parse_expression(u)
+        if '__nd__' in v:
+            import numpy as np
+            return np.array(v['__nd__'])
+        return {k: decode_value(x) for k, x in v.items()}
+    if isinstance(v, list):
+        return [decode_value(x) for x in v]
+    return v
+
+
+def decode_schema(s):
+    """JSON schema -> ports schema (decodes default values)."""
+    if isinstance(s, dict):
+        out = {}
+        for k, v in s.items():
+            if k in ('_default', '_value'):
+                out[k] = decode_value(v)
+            elif k == '_units':
+                from vivarium.library.units import units
+                out[k] = units.parse_expression(v).units
+            else:
+                out[k] = decode_schema(v)
+        return out
+    return s
+
+
+class WProc(ScriptedMixin, Process):
+    """Process with an arbitrary (generated) ports schema and scripted writes.
+
+    spec:
+      schema   JSON ports schema
+      writes   list of {'path': [...port-relative schema path, '@i' picks the
+               i-th current child of a glob...], 'vals': [...], 'mask': [...]}:
+               in interval k the write is issued iff mask[k % len] and
+               carries vals[k % len]
+      init     optional initial_state() in port shape (JSON)
+    """
+    name = 'wproc'
+
+    def __init__(self, parameters=None):
+        super().__init__(parameters)
+        self._sinit()
+        self._last = None
+
+    def ports_schema(self):
+        schema = decode_schema(self.spec['schema'])
+        schema.update(self._base_schema())
+        return _perm_schema(self, schema)
+
+    def initial_state(self, config=None):
+        return decode_value(self.spec.get('init') or {})
+
+    def _script_update(self, k, timestep, states):
+        # the update object handed out last time must not have been modified
+        if self._last is not None and REC.active:
+            obj, cp = self._last
+            from dst.wmodel import values_equal
+            if not values_equal(log_copy(obj), cp):
+                REC.ev('MUTATED', uid=self._uid(), n=k - 1, before=cp, after=log_copy(obj))
+        up = {}
+        for w in self.spec.get('writes', []):
+            mask = w.get('mask') or [1]
+            if not mask[k % len(mask)]:
+                continue
+            path = []
+            node = states
+            ok = True
+            for seg in w['path']:
+                if isinstance(seg, str) and seg.startswith('@'):
+                    kids = sorted(node.keys()) if isinstance(node, dict) else []
+                    if not kids:
+                        ok = False
+                        break
+                    seg = kids[int(seg[1:]) % len(kids)]
+                path.append(seg)
+                node = node.get(seg) if isinstance(node, dict) else None
+            if not ok:
+                continue
+            vals = w['vals']
+            _set_in(up, path, decode_value(vals[k % len(vals)]))
+        return up
+
+    def next_update(self, timestep, states):
+        update = ScriptedMixin.next_update(self, timestep, states)
+        self._last = (update, log_copy(update))
+        return update
